@@ -27,12 +27,15 @@ var pkgTexts = map[string][]string{
 	"long":     {pkgLong, pkgLong[:40000] + `<&"]]>` + pkgLong[:25000]},
 }
 
+// pkgConc is set per case (extra.conc): together with VERIF_SEED it selects the concretisation
+var pkgConc int
+
 func pkgText(tc string, salt int) string {
 	l := pkgTexts[tc]
 	if len(l) == 0 {
 		return "?" + tc
 	}
-	k := (int(seed) + salt) % len(l)
+	k := (int(seed) + pkgConc + salt) % len(l)
 	if k < 0 {
 		k = -k
 	}
@@ -72,7 +75,7 @@ func pkgName(nc string, salt int) string {
 	if len(l) == 0 {
 		return "x.png"
 	}
-	k := (int(seed) + salt) % len(l)
+	k := (int(seed) + pkgConc + salt) % len(l)
 	if k < 0 {
 		k = -k
 	}
